@@ -106,6 +106,25 @@ theorem rows_live_every_prefix (wid nthreads : Nat) (ops : List (Op Handle))
   let h := (inv_rel_every_prefix info wid nthreads ops hwf k).1
   ⟨h.live, h.rows, h.keys⟩
 
+/-- the API-level form of C01 from the refinement: in related states every issued handle is valid in the model exactly
+when the entity of its ordinal is alive in the spec -/
+theorem valid_iff_spec_alive {c : CW} {s : WS} (hi : Inv c) (hr : Rel c s) (o : Nat) (h : Handle)
+    (ho : c.issued[o]? = some h) : (s.alive o).isSome = c.w.isValid h := by
+  have h1 := hr.ents o h ho
+  have h2 := absEnt_isSome_iff hi.live hi.rows h
+  rw [← h2]
+  cases ha : s.alive o <;> cases hb : absEnt c.w h <;> simp_all [optRel]
+
+/-- … and therefore at EVERY reachable state of a history within the contract: "a handle is valid exactly while the
+entity it was issued for is alive", with "alive" read off the abstract spec (no id table, no versions) -/
+theorem valid_iff_spec_alive_every_prefix (wid nthreads : Nat) (ops : List (Op Handle))
+    (hwf : WfRun info (CW.init wid nthreads) ops) (k o : Nat) (h : Handle)
+    (ho : (runBoth info (CW.init wid nthreads) (specInit nthreads) (ops.take k)).1.issued[o]? = some h) :
+    ((runBoth info (CW.init wid nthreads) (specInit nthreads) (ops.take k)).2.alive o).isSome =
+      (runBoth info (CW.init wid nthreads) (specInit nthreads) (ops.take k)).1.w.isValid h :=
+  let hp := inv_rel_every_prefix info wid nthreads ops hwf k
+  valid_iff_spec_alive hp.1 hp.2 o h ho
+
 /-- `LiveInv` through the outermost `unlock` (the flush of every buffered pack), from any state that satisfies the
 invariants and is related to some spec state -/
 theorem liveInv_through_flush {c : CW} {s : WS} (hi : Inv c) (hr : Rel c s) (hd : c.w.lockDepth ≤ 1)
@@ -201,6 +220,14 @@ example :
 example : (runBoth exInfo (CW.init 0 3) (specInit 3) (exHistory.take 5)).1.w.lockDepth = 1 ∧
     ((runBoth exInfo (CW.init 0 3) (specInit 3) (exHistory.take 8)).1.issued.filter
       (runBoth exInfo (CW.init 0 3) (specInit 3) (exHistory.take 8)).1.w.isValid).length = 3 := by decide
+
+/-- non-vacuity of `valid_iff_spec_alive`: at the end of `exHistory` the first handle (id 0, version 0) is dead on both
+sides while the handle that recycled its id (id 0, version 1, ordinal 3) is alive on both sides -/
+example :
+    (runBoth exInfo (CW.init 0 3) (specInit 3) exHistory).1.w.isValid ⟨0, 0, 0⟩ = false ∧
+    (runBoth exInfo (CW.init 0 3) (specInit 3) exHistory).1.w.isValid ⟨0, 1, 0⟩ = true ∧
+    ((runBoth exInfo (CW.init 0 3) (specInit 3) exHistory).2.alive 0).isSome = false ∧
+    ((runBoth exInfo (CW.init 0 3) (specInit 3) exHistory).2.alive 3).isSome = true := by decide
 
 /-- the recycled creation really recycles: the handle issued fourth has the id of the first, version 1 -/
 example : (runBoth exInfo (CW.init 0 3) (specInit 3) exHistory).1.issued =
